@@ -107,6 +107,7 @@ def _unit(arg):
 
         def judge(x):
             x.frozen_ns = list(x.cs.ns)   # the oracle may draw further choices; they are not explored
+            digest = exec_digest(x)       # taken BEFORE the oracle runs (it may draw from the same source)
             ur.execs += 1
             ur.transitions += len(x.cs.ns)
             ur.max_points = max(ur.max_points, len(x.cs.ns))
@@ -116,7 +117,7 @@ def _unit(arg):
             for v in vs:
                 v = dict(v)
                 v.setdefault('schedule', schedule_json(x))
-                v.setdefault('digest', exec_digest(x))
+                v.setdefault('digest', digest)
                 ur.violations.append(v)
             for t in (x.T0, x.T1, x.T2):
                 if t is not None:
